@@ -6,8 +6,11 @@ import (
 	"fmt"
 	"strings"
 	"sync"
+	"sync/atomic"
 	"unicode/utf8"
 
+	"github.com/robfig/soy/data"
+	"github.com/robfig/soy/soyhtml"
 	"github.com/robfig/soy/soyjs"
 	"github.com/robfig/soy/template"
 
@@ -28,8 +31,31 @@ func engine() (jsx.Engine, error) {
 	return jsEngine, jsErr
 }
 
+var (
+	genJSCalls, genJSFailedFirst int64
+	jsFailOnce                   sync.Once
+	jsFailReg                    *template.Registry
+)
+
+const jsFailSrc = "{namespace jsf}\n/** @param? a */\n{template .t}\nsome 'text' \"first\" {$a}\n{call .u}{param x: ($a ?: 1) + 7 * verifHtmlOnly($a) /}{/call}" +
+	"{call .u data=\"['x': verifHtmlOnly(2)]\" /}{let $l: [1, 2] /}{$l[verifHtmlOnly(0)]}\n{/template}\n/** @param? x */\n{template .u}{$x ?: ''}{/template}\n"
+
 // genJS generates the JavaScript of every file of the registry.
 func genJS(reg *template.Registry, o soyjs.Options) (map[string]string, error) {
+	// every third generation comes after one that failed part-way (a function only the HTML backend knows, met in the
+	// middle of a file): what a failed generation leaves behind must not reach the next one
+	if atomic.AddInt64(&genJSCalls, 1)%3 == 0 {
+		jsFailOnce.Do(func() {
+			soyhtml.Funcs["verifHtmlOnly"] = soyhtml.Func{Apply: func(a []data.Value) data.Value { return data.Int(0) }, ValidArgLengths: []int{1}}
+			jsFailReg, _ = compileRegistry([]srcFile{{"jsfail.soy", jsFailSrc}}, nil)
+		})
+		if jsFailReg != nil {
+			var sink bytes.Buffer
+			if err := soyjs.Write(&sink, jsFailReg.SoyFiles[0], o); err != nil {
+				atomic.AddInt64(&genJSFailedFirst, 1)
+			}
+		}
+	}
 	out := map[string]string{}
 	for _, sf := range reg.SoyFiles {
 		var buf bytes.Buffer
@@ -161,6 +187,7 @@ func init() {
 		Run: func(ctx *fw.Ctx, i int) fw.Result {
 			e, _ := engine()
 			ctx.Cell("engine:" + e.Name())
+			defer func() { ctx.Obs("generations_after_a_failed_one", atomic.SwapInt64(&genJSFailedFirst, 0)) }()
 			nLit := nStr * len(c14Sites)
 			nRandLit := 4000
 			if ctx.Tier == "thorough" {
